@@ -1,2 +1,547 @@
-// Package c18: implementation-side ops, generators and oracles for property C18.
+// Package c18: implementation-side ops, generators and oracles for property C18 (exported keys
+// import to an identical keystore and stay confidential in transit).
 package c18
+
+import (
+	"bytes"
+	"fmt"
+	"sort"
+	"strings"
+	"time"
+
+	keystoreV1 "github.com/cossacklabs/acra/keystore"
+	"github.com/cossacklabs/acra/keystore/v2/keystore/api"
+	"github.com/cossacklabs/acra/keystore/v2/keystore/crypto"
+	"github.com/cossacklabs/acra/keystore/v2/keystore/filesystem"
+
+	"verifharness/internal/core"
+)
+
+func init() {
+	core.RegisterProp("C18", run)
+	core.Register("C18.v2", opV2)
+}
+
+// ---------- plaintext description of rings (same tokens as the model driver) ----------
+
+type dataD struct {
+	format         int
+	pub, priv, sym []byte
+}
+type keyD struct {
+	seq, state   int
+	since, until int64
+	data         []dataD
+	destroy      bool // destroyed through the API (state 6, no data)
+}
+type ringD struct {
+	path    string
+	current int
+	keys    []keyD
+}
+
+func (d dataD) String() string {
+	return fmt.Sprintf("%d:%s:%s:%s", d.format, core.Hex(d.pub), core.Hex(d.priv), core.Hex(d.sym))
+}
+func (k keyD) String() string {
+	ds := "-"
+	if len(k.data) > 0 {
+		var xs []string
+		for _, d := range k.data {
+			xs = append(xs, d.String())
+		}
+		ds = strings.Join(xs, "&")
+	}
+	return fmt.Sprintf("%d,%d,%d,%d,%s", k.seq, k.state, k.since, k.until, ds)
+}
+func (r ringD) String() string {
+	ks := "-"
+	if len(r.keys) > 0 {
+		var xs []string
+		for _, k := range r.keys {
+			xs = append(xs, k.String())
+		}
+		ks = strings.Join(xs, "|")
+	}
+	return fmt.Sprintf("%s;%d;%s", core.Hex([]byte(r.path)), r.current, ks)
+}
+
+func parseRing(s string) ringD {
+	f := strings.Split(s, ";")
+	r := ringD{path: string(core.UnHex(f[0])), current: core.Atoi(f[1])}
+	if f[2] == "-" {
+		return r
+	}
+	for _, ks := range strings.Split(f[2], "|") {
+		g := strings.Split(ks, ",")
+		k := keyD{seq: core.Atoi(g[0]), state: core.Atoi(g[1]), since: int64(core.Atoi(g[2])), until: int64(core.Atoi(g[3]))}
+		if g[4] != "-" {
+			for _, ds := range strings.Split(g[4], "&") {
+				h := strings.Split(ds, ":")
+				k.data = append(k.data, dataD{core.Atoi(h[0]), core.UnHex(h[1]), core.UnHex(h[2]), core.UnHex(h[3])})
+			}
+		}
+		r.keys = append(r.keys, k)
+	}
+	return r
+}
+
+// ---------- building real key stores from descriptions ----------
+
+var (
+	srcEnc, srcSig = []byte("source-master-key-0123456789abcdef"), []byte("source-signature-key-0123456789ab")
+	tgtEnc, tgtSig = []byte("target-master-key-0123456789abcdef"), []byte("target-signature-key-0123456789ab")
+)
+
+func newStore(enc, sig []byte) api.MutableKeyStore {
+	suite, err := crypto.NewSCellSuite(enc, sig)
+	if err != nil {
+		panic("harness: " + err.Error())
+	}
+	ks, err := filesystem.NewInMemory(suite)
+	if err != nil {
+		panic("harness: " + err.Error())
+	}
+	return ks
+}
+
+func statePath(st int) []int {
+	switch st {
+	case 2:
+		return []int{2}
+	case 3:
+		return []int{2, 3}
+	case 4:
+		return []int{4}
+	case 5:
+		return []int{5}
+	}
+	return nil
+}
+
+// build creates the rings through the public API. A key with state 6 is created with placeholder
+// material and destroyed through DestroyKey. Returns false when the description cannot be built
+// through the API (the harness only generates buildable ones).
+func build(ks api.MutableKeyStore, rings []ringD) bool {
+	for _, rd := range rings {
+		ring, err := ks.OpenKeyRingRW(rd.path)
+		if err != nil {
+			return false
+		}
+		for _, k := range rd.keys {
+			desc := api.KeyDescription{ValidSince: time.Unix(k.since, 0).UTC(), ValidUntil: time.Unix(k.until, 0).UTC()}
+			data := k.data
+			if k.state == 6 {
+				data = []dataD{{format: 3, sym: []byte("to-be-destroyed-key-material-32b")}}
+			}
+			for _, d := range data {
+				desc.Data = append(desc.Data, api.KeyData{Format: api.KeyFormat(d.format), PublicKey: d.pub, PrivateKey: d.priv, SymmetricKey: d.sym})
+			}
+			seq, err := ring.AddKey(desc)
+			if err != nil || seq != k.seq {
+				return false
+			}
+			if k.state == 6 {
+				if err := ring.DestroyKey(seq); err != nil {
+					return false
+				}
+				continue
+			}
+			for _, st := range statePath(k.state) {
+				if err := ring.SetState(seq, api.KeyState(st)); err != nil {
+					return false
+				}
+			}
+		}
+		if rd.current != -1 {
+			if err := ring.SetCurrent(rd.current); err != nil {
+				return false
+			}
+		}
+	}
+	return true
+}
+
+// view renders every ring of a key store in plaintext through the read API.
+func view(ks api.MutableKeyStore) (string, []ringD) {
+	paths, err := ks.ListKeyRings()
+	if err != nil {
+		return "list-error", nil
+	}
+	sort.Strings(paths)
+	var out []ringD
+	for _, p := range paths {
+		ring, err := ks.OpenKeyRing(p)
+		if err != nil {
+			out = append(out, ringD{path: p, current: -99})
+			continue
+		}
+		rd := ringD{path: p, current: -1}
+		if c, err := ring.CurrentKey(); err == nil {
+			rd.current = c
+		}
+		seqs, _ := ring.AllKeys()
+		for i := len(seqs) - 1; i >= 0; i-- {
+			seq := seqs[i]
+			st, _ := ring.State(seq)
+			since, _ := ring.ValidSince(seq)
+			until, _ := ring.ValidUntil(seq)
+			k := keyD{seq: seq, state: int(st), since: since.Unix(), until: until.Unix()}
+			formats, _ := ring.Formats(seq)
+			for _, f := range formats {
+				d := dataD{format: int(f)}
+				d.pub, _ = ring.PublicKey(seq, f)
+				d.priv, _ = ring.PrivateKey(seq, f)
+				d.sym, _ = ring.SymmetricKey(seq, f)
+				k.data = append(k.data, d)
+			}
+			rd.keys = append(rd.keys, k)
+		}
+		out = append(out, rd)
+	}
+	s := fmt.Sprint(len(out))
+	for _, r := range out {
+		s += " " + r.String()
+	}
+	return s, out
+}
+
+type v2Result struct {
+	outcome        string
+	bundle         []byte
+	accEnc, accSig []byte
+	tgt            api.MutableKeyStore
+	srcView        []ringD
+}
+
+var accessCounter int
+
+func runV2(wp bool, src []ringD, sel []string, tgt []ringD) *v2Result {
+	S := newStore(srcEnc, srcSig)
+	T := newStore(tgtEnc, tgtSig)
+	if !build(S, src) || !build(T, tgt) {
+		panic("harness: description cannot be built through the API")
+	}
+	res := &v2Result{tgt: T}
+	_, res.srcView = view(S)
+	accessCounter++
+	res.accEnc = []byte(fmt.Sprintf("access-encryption-key-%011d", accessCounter))
+	res.accSig = []byte(fmt.Sprintf("access-signature--key-%011d", accessCounter))
+	suite, _ := crypto.NewSCellSuite(res.accEnc, res.accSig)
+	mode := keystoreV1.ExportPublicOnly
+	if wp {
+		mode = keystoreV1.ExportPrivateKeys
+	}
+	bundle, err := S.ExportKeyRings(sel, suite, mode)
+	if err != nil {
+		res.outcome = "xerr"
+		return res
+	}
+	res.bundle = bundle
+	suite2, _ := crypto.NewSCellSuite(res.accEnc, res.accSig)
+	if _, err := T.ImportKeyRings(bundle, suite2, nil); err != nil {
+		res.outcome = "err"
+	} else {
+		res.outcome = "ok"
+	}
+	return res
+}
+
+func parseV2(a []string) (wp bool, src []ringD, sel []string, tgt []ringD) {
+	wp = a[0] == "1"
+	i := 1
+	n := core.Atoi(a[i])
+	i++
+	for k := 0; k < n; k++ {
+		src = append(src, parseRing(a[i]))
+		i++
+	}
+	n = core.Atoi(a[i])
+	i++
+	for k := 0; k < n; k++ {
+		sel = append(sel, string(core.UnHex(a[i])))
+		i++
+	}
+	n = core.Atoi(a[i])
+	i++
+	for k := 0; k < n; k++ {
+		tgt = append(tgt, parseRing(a[i]))
+		i++
+	}
+	return
+}
+
+func opV2(a []string) string {
+	wp, src, sel, tgt := parseV2(a)
+	res := runV2(wp, src, sel, tgt)
+	v, _ := view(res.tgt)
+	return res.outcome + " " + v
+}
+
+// ---------- generators ----------
+
+func genData(rd *core.Rand, kind int) []dataD {
+	pair := dataD{format: 1, pub: rd.Bytes(45), priv: rd.Bytes(45)}
+	if rd.Chance(15) {
+		pair.priv = nil // public-only key pair
+	}
+	sym := dataD{format: 3, sym: rd.Bytes(32)}
+	switch kind {
+	case 0:
+		return []dataD{pair}
+	case 1:
+		return []dataD{sym}
+	default:
+		if rd.Bool() {
+			return []dataD{pair, sym}
+		}
+		return []dataD{sym, pair}
+	}
+}
+
+func genRing(rd *core.Rand, path string, allowDestroyed bool) ringD {
+	r := ringD{path: path, current: -1}
+	n := rd.Intn(4)
+	kind := rd.Intn(3)
+	if rd.Chance(85) {
+		kind = rd.Intn(2)
+	}
+	for i := 0; i < n; i++ {
+		since := int64(1500000000 + rd.Intn(100000000))
+		k := keyD{seq: i + 1, state: core.Pick(rd, []int{1, 1, 2, 2, 3, 4, 5}), since: since, until: since + int64(rd.Intn(50000000)), data: genData(rd, kind)}
+		if allowDestroyed && rd.Chance(12) {
+			k.state, k.data = 6, nil
+		}
+		r.keys = append(r.keys, k)
+	}
+	if n > 0 && rd.Chance(70) {
+		r.current = 1 + rd.Intn(n)
+	}
+	return r
+}
+
+var ringPaths = []string{"client/alice/storage", "client/alice/storage-sym", "client/bob/hmac-sym", "poison-record", "poison-record-sym", "audit-log", "a", "client/x y/storage"}
+
+func line(wp bool, src []ringD, sel []string, tgt []ringD) string {
+	var sb strings.Builder
+	w := "0"
+	if wp {
+		w = "1"
+	}
+	fmt.Fprintf(&sb, "C18.v2 %s %d", w, len(src))
+	for _, r := range src {
+		sb.WriteString(" " + r.String())
+	}
+	fmt.Fprintf(&sb, " %d", len(sel))
+	for _, p := range sel {
+		sb.WriteString(" " + core.Hex([]byte(p)))
+	}
+	fmt.Fprintf(&sb, " %d", len(tgt))
+	for _, r := range tgt {
+		sb.WriteString(" " + r.String())
+	}
+	return sb.String()
+}
+
+func secretsOf(rings []ringD) [][]byte {
+	var out [][]byte
+	for _, r := range rings {
+		for _, k := range r.keys {
+			for _, d := range k.data {
+				if len(d.priv) >= 8 {
+					out = append(out, d.priv)
+				}
+				if len(d.sym) >= 8 {
+					out = append(out, d.sym)
+				}
+			}
+		}
+	}
+	return out
+}
+
+func hasDestroyed(rs []ringD, sel []string) bool {
+	for _, r := range rs {
+		for _, p := range sel {
+			if p == r.path {
+				for _, k := range r.keys {
+					if k.state == 6 {
+						return true
+					}
+				}
+			}
+		}
+	}
+	return false
+}
+
+func run(r *core.Run) {
+	r.Rule = "source key stores built through the API from generated ring descriptions (0-3 keys per ring, key pairs / symmetric / both formats, assorted states incl. destroyed, with or without current), a selection of ring paths (existing, repeated or missing), mode private / public-only, target empty or holding some of the rings; " +
+		"a case is non-trivial when at least one ring with at least one key is selected; distinct by the op line. " +
+		"v1 stream: a real v1 key store with two clients (storage key pair, symmetric, HMAC keys, 0-2 rotations each) and a poison pair; export by id of every kind and export of everything, import into a fresh store, compare through the read API; bundle scan; sampled single-byte modifications of bundle and access key"
+	runV1(r) // v1 key store first: its regression corpus (repo-patches/04) runs on every run
+	rd := r.Rand.Fork()
+	n := r.N(250, 6000)
+	tamperBudget := r.N(6, 60)
+	for i := 0; i < n; i++ {
+		nr := 1 + rd.Intn(4)
+		perm := append([]string{}, ringPaths...)
+		for k := range perm {
+			j := k + rd.Intn(len(perm)-k)
+			perm[k], perm[j] = perm[j], perm[k]
+		}
+		var src []ringD
+		for k := 0; k < nr; k++ {
+			src = append(src, genRing(rd, perm[k], true))
+		}
+		var sel []string
+		for _, s := range src {
+			if rd.Chance(70) {
+				sel = append(sel, s.path)
+			}
+		}
+		if rd.Chance(5) {
+			sel = append(sel, "no/such/ring")
+		}
+		if rd.Chance(5) && len(sel) > 0 {
+			sel = append(sel, sel[0])
+		}
+		var tgt []ringD
+		if rd.Chance(25) {
+			tgt = append(tgt, genRing(rd, core.Pick(rd, perm[:nr+1]), false))
+		}
+		wp := rd.Chance(70)
+		nontrivial := false
+		for _, s := range src {
+			for _, p := range sel {
+				if p == s.path && len(s.keys) > 0 {
+					nontrivial = true
+				}
+			}
+		}
+		l := line(wp, src, sel, tgt)
+		mode := "mode:public"
+		if wp {
+			mode = "mode:private"
+		}
+		r.Begin(l, nontrivial, mode)
+		// implementation, with access to the intermediate values for the oracles
+		res := runV2(wp, src, sel, tgt)
+		r.Impl(l) // record the line for replay (runs the op once more; cheap)
+		tv, tgtView := view(res.tgt)
+		r.Diff(l, res.outcome+" "+tv)
+		r.Tag("outcome:" + res.outcome)
+
+		// --- oracles on the implementation
+		if res.bundle != nil {
+			for _, s := range secretsOf(src) {
+				r.Check(!bytes.Contains(res.bundle, s), "secret-in-bundle", "exported bundle contains private/symmetric key material in clear")
+			}
+		}
+		if res.outcome == "ok" && len(tgt) == 0 {
+			// identity on the selection
+			byPath := map[string]ringD{}
+			for _, t := range tgtView {
+				byPath[t.path] = t
+			}
+			for _, s := range res.srcView {
+				selected := false
+				for _, p := range sel {
+					selected = selected || p == s.path
+				}
+				t, present := byPath[s.path]
+				if !selected {
+					r.Check(!present, "unselected-imported", "a ring outside the selection appeared in the target: "+s.path)
+					continue
+				}
+				if wp {
+					r.Check(present && t.String() == s.String(), "identity", fmt.Sprintf("ring %s differs after export/import: source %s target %s", s.path, s.String(), t.String()))
+				} else if present {
+					// public-only: same keys, public parts equal, no secrets
+					ok := len(t.keys) == len(s.keys) && t.current == s.current
+					for ki := range t.keys {
+						if !ok {
+							break
+						}
+						a, b := s.keys[ki], t.keys[ki]
+						ok = a.seq == b.seq && a.state == b.state && a.since == b.since && a.until == b.until && len(a.data) == len(b.data)
+						for di := range b.data {
+							if !ok {
+								break
+							}
+							ok = bytes.Equal(a.data[di].pub, b.data[di].pub) && len(b.data[di].priv) == 0 && len(b.data[di].sym) == 0
+						}
+					}
+					r.Check(ok, "identity-public", fmt.Sprintf("public-only export/import of %s changed public data or leaked secrets: source %s target %s", s.path, s.String(), t.String()))
+				}
+			}
+		}
+		if res.outcome == "err" && len(tgt) == 0 && len(sel) > 0 {
+			// a well-formed bundle of existing rings that cannot be imported into an empty target
+			cls := "import-fails"
+			if hasDestroyed(src, sel) {
+				cls = "import-destroyed-key"
+			}
+			dup := false
+			for a := range sel {
+				for b := a + 1; b < len(sel); b++ {
+					dup = dup || sel[a] == sel[b]
+				}
+			}
+			if !dup {
+				r.Fail(cls, "importing an honest bundle into an empty key store fails: "+l)
+			}
+		}
+
+		// --- tampering and wrong keys (on a budget)
+		if res.bundle != nil && res.outcome == "ok" && nontrivial && tamperBudget > 0 {
+			tamperBudget--
+			tamper(r, rd, res)
+		}
+	}
+}
+
+func tamper(r *core.Run, rd *core.Rand, res *v2Result) {
+	try := func(bundle, enc, sig []byte, what string) {
+		T := newStore(tgtEnc, tgtSig)
+		suite, _ := crypto.NewSCellSuite(enc, sig)
+		_, err := T.ImportKeyRings(bundle, suite, nil)
+		rings, _ := T.ListKeyRings()
+		r.Tag("tamper")
+		if err == nil {
+			r.Fail("tamper-accepted", what+" was accepted by ImportKeyRings")
+		} else if len(rings) != 0 {
+			r.Fail("tamper-changed-target", what+" was rejected but the target changed: "+strings.Join(rings, ","))
+		}
+	}
+	vals := 1
+	if r.Thorough() {
+		vals = 3
+	}
+	for pos := range res.bundle {
+		for v := 0; v < vals; v++ {
+			b := append([]byte{}, res.bundle...)
+			delta := byte(1 + rd.Intn(255))
+			if v == 1 {
+				delta = 1
+			}
+			if v == 2 {
+				delta = 0x80
+			}
+			b[pos] ^= delta
+			try(b, res.accEnc, res.accSig, fmt.Sprintf("bundle with byte %d of %d changed (xor %#x)", pos, len(b), delta))
+		}
+	}
+	for pos := range res.accEnc {
+		k := append([]byte{}, res.accEnc...)
+		k[pos] ^= byte(1 + rd.Intn(255))
+		try(res.bundle, k, res.accSig, "honest bundle with a modified access encryption key")
+	}
+	for pos := range res.accSig {
+		k := append([]byte{}, res.accSig...)
+		k[pos] ^= byte(1 + rd.Intn(255))
+		try(res.bundle, res.accEnc, k, "honest bundle with a modified access signature key")
+	}
+	try(res.bundle[:len(res.bundle)-1], res.accEnc, res.accSig, "truncated bundle")
+	try(append(append([]byte{}, res.bundle...), 0), res.accEnc, res.accSig, "bundle with a trailing byte")
+}
